@@ -78,6 +78,12 @@ Other ==
   /\ i <= Len(Recs) /\ Rec.kind # "lab"
   /\ CASE Rec.kind = "add" ->
             Chk(Unpack(Rec.res) = FromFrames(Rec.n0 + Rec.d), i, Rec.n0, "add_n_frames")
+       [] Rec.kind = "wf" ->
+            \* begin/end written by the IMSC writer for a time exactly on frame boundary n0: that frame, in both frame syntaxes
+            /\ (IF Rec.fr = -2 THEN TRUE ELSE Chk(Rec.fr = Rec.n0, i, Rec.n0, "written_frame_count"))
+            /\ (IF Rec.res = -2 THEN TRUE
+                ELSE /\ Chk(Rec.res # -1 /\ Unpack(Rec.res) = FromFrames(Rec.n0), i, Rec.n0, "written_frame_label")
+                     /\ Chk(Rec.sep = (IF DROP > 0 THEN 1 ELSE 0), i, Rec.n0, "written_label_separator"))
        [] Rec.kind = "bad" -> Fail(i, Rec.n0, "unpackable_" \o Rec.what)
        [] Rec.kind = "ms" ->
             LET T == ClockMs(Rec.h, Rec.m, Rec.s, Rec.msf) IN
